@@ -219,4 +219,5 @@ static inline v32u8 llvm_x86_avx512_mask_pmov_wb_512(v32u16 a, v32u8 src, u32 k)
 #endif
 
 #include "ll2c_models2.h"
+#include "ll2c_cpu.h"
 #endif
